@@ -142,10 +142,10 @@ class SModule:
 
 class SEntropy:
     """Abstract entropy function (A-entropy): behaves like os.urandom; stream id."""
-    __slots__ = ("stream", "forbidden")
+    __slots__ = ("stream", "forbidden", "pattern", "count")
 
     def __init__(self, stream, forbidden=False):
-        self.stream, self.forbidden = stream, forbidden
+        self.stream, self.forbidden, self.pattern, self.count = stream, forbidden, None, 0
 
 
 class SOpaque:
